@@ -6,7 +6,7 @@ from automat import MethodicalMachine
 from nacl import utils
 from nacl.exceptions import CryptoError
 from nacl.secret import SecretBox
-from spake2 import SPAKE2_Symmetric, SPAKEError
+from spake2 import SPAKE2_Symmetric
 from zope.interface import implementer
 
 from . import _interfaces
@@ -204,9 +204,11 @@ class _SortedKey:
         with self._timing.add("pake2", waiting="crypto"):
             try:
                 key = self._sp.finish(msg2)
-            except (SPAKEError, ValueError, AssertionError):
+            except Exception:
                 # not a SPAKE2 message for this exchange (wrong length, not a
-                # group element, our own message reflected): nobody who knows
+                # group element, bytes that are no curve point at all - for
+                # which the library raises its own NotOnCurve, a plain
+                # Exception - or our own message reflected): nobody who knows
                 # the code sent this
                 self._B.scared()
                 return
